@@ -55,6 +55,12 @@ ZERO_BOND = ['{[#M][#L]}.{#L=CS(C).[$],#M=.[$][Cu+]}', '{[#L][#M]}.{#L=CS(C).[$]
              '{[#M][#L]}.{#L=CN(C).[$],#M=.[$][Cu+]}', '{[#L][#M]}.{#L=CN(C).[$],#M=.[$][Cu+]}',
              '{[#M][#L]}.{#L=CO.[$],#M=.[$][Na+]}', '{[#L][#M]}.{#L=CO.[$],#M=.[$][Na+]}',
              '{[#L][#M][#L]}.{#L=CS(C).[$],#M=.[$][Cu+].[$]}']
+# hydrogens that belong to ANOTHER bead than the atom they are bonded to: single-hydrogen end-group fragments, and an
+# explicit (annotated) hydrogen on an atom shared through the squash operator
+OWN_H = ['{[#Hter][#PE][#PE][#Hter]}.{#PE=[$]CC[$],#Hter=[$][H]}', '{[#A][#B]}.{#A=OC[!],#B=[!]C([H;w=0.5])C}',
+         '{[#Hter][#PE][#OH]}.{#PE=[$]CC[$],#Hter=[$][H],#OH=[$]O}', '{[#Hter][#A]}.{#A=[$]C(=O)O,#Hter=[$][H]}',
+         '{[#A][#B]}.{#A=OC[!],#B=[!]C([H])C}', '{[#A][#B]}.{#A=[O;w=2]C[!],#B=[!]C([H;w=0])[C;w=0.5]}',
+         '{[#Hter][#PE]|3[#Hter]}.{#PE=[$]CC[$],#Hter=[$][H]}']
 WEIGHTS = [0.5, 2.0, 12.011, 1.008, 0.25, 3, 1, 1, 0]
 
 
@@ -264,6 +270,11 @@ class C18(common.Prop):
              't': [1.0, -2.0, 0.5], 'own': 1},
             {'kind': 'fwd', 's': '{[#A][#B]}.{#A=OC[!],#B=[!]CC}', 'weights': 'random', 'seed': 6, 'embed_first': True,
              't': [0.0, 3.0, 0.0], 'own': 0},
+            {'kind': 'fwd', 's': OWN_H[0], 'weights': None, 'seed': 12, 't': [1.0, 2.0, 3.0], 'own': 1},
+            {'kind': 'fwd', 's': OWN_H[0], 'weights': None, 'seed': 13, 't': [0.0, -2.0, 1.5], 'own': 2, 'embed_first': True},
+            {'kind': 'fwd', 's': OWN_H[1], 'weights': None, 'seed': 14, 't': [1.0, 2.0, 3.0], 'own': 0},
+            {'kind': 'fwd', 's': OWN_H[1], 'weights': None, 'seed': 15, 't': [-1.0, 0.5, 0.0], 'own': 1, 'embed_first': True},
+            {'kind': 'fwd', 's': OWN_H[5], 'weights': None, 'seed': 16, 't': [2.0, 2.0, 2.0], 'own': 0},
             {'kind': 'fwd', 's': ZERO_W[0], 'weights': None, 'seed': 8, 't': [1.0, 2.0, -0.5], 'own': 0},
             {'kind': 'fwd', 's': ZERO_W[1], 'weights': None, 'seed': 9, 't': [-3.0, 0.0, 0.25], 'own': 0},
             {'kind': 'fwd', 's': ZERO_W[2], 'weights': None, 'seed': 10, 't': [0.5, 0.5, 0.5], 'own': 1, 'embed_first': True},
@@ -300,8 +311,11 @@ class C18(common.Prop):
                 out.append(c)
             else:
                 mode = rng.choice(['unit', 'unit', 'random', 'random', 'balanced'])
-                if rng.random() < 0.2:
+                r2 = rng.random()
+                if r2 < 0.2:
                     s, mode = rng.choice(ZERO_W), 'unit'        # the weights the string wrote, some of them 0
+                elif r2 < 0.4:
+                    s = rng.choice(OWN_H)                       # hydrogens of another bead bonded to this bead's atoms
                 out.append({'kind': 'fwd', 's': s, 'embed_first': rng.random() < 0.35, 'weights': mode if mode != 'unit' else None,
                             'seed': rng.randrange(10 ** 6),
                             't': [rng.choice([0.0, 1.0, -2.5, rng.uniform(-50, 50)]) for _ in range(3)],
@@ -443,7 +457,7 @@ class C18(common.Prop):
             d = g.nodes[a]
             if case.get('weights') in ('random', 'balanced'):
                 return d.get('weight', 1)
-            if d.get('element') == 'H':
+            if d.get('element') == 'H' and 'weight' not in d:      # an explicitly written [H;w=..] keeps its own weight
                 anchors = [x for x in aa[a] if aa.nodes[x].get('element') != 'H'] if a in aa else []
                 if len(anchors) == 1:
                     ad = g.nodes[anchors[0]] if anchors[0] in g else aa.nodes[anchors[0]]
